@@ -134,6 +134,41 @@ def _exact_two_step_ok(st, dg, g1, g2):
     return a2 is not None and a2 > 0
 
 
+def check_per_element(chk, states_by_group):
+    """Index layouts: per-element mean stress sensitivities (DataFrame of M, M2 indexed by element_id) against cycles indexed by
+    (element_id, cycle_number): every element must get the amplitudes it gets with its own diagram alone."""
+    import pylife.strength.meanstress  # noqa
+    for rg in ('m1', 'z', 'mh', 'ninf', 'h'):
+        a = states_by_group.get(('g0', rg), [])
+        b = states_by_group.get(('g3', rg), [])
+        if len(a) < 3 or len(b) < 3:
+            continue
+        a, b = a[:12], b[:9]
+        sens = pd.DataFrame({'M': [DIAG['g0'][1], DIAG['g3'][1]], 'M2': [DIAG['g0'][2], DIAG['g3'][2]]}, index=pd.Index([7, 3], name='element_id'))
+        rows, amp, mean, want = [], [], [], []
+        for eid, sts in ((7, a), (3, b)):
+            for i, st in enumerate(sts):
+                rows.append((eid, i))
+                amp.append(float(st['a'])); mean.append(float(st['m'])); want.append(float(Fraction(*st['out'])))
+        cyc = pd.DataFrame({'range': 2 * np.asarray(amp), 'mean': mean}, index=pd.MultiIndex.from_tuples(rows, names=['element_id', 'cycle_number']))
+        c0, s0 = cyc.copy(deep=True), sens.copy(deep=True)
+        chk.evals(len(rows))
+        try:
+            with warnings.catch_warnings():
+                warnings.simplefilter('ignore')
+                res = cyc.meanstress_transform.fkm_goodman(sens, GOAL[rg])
+            got = res.amplitude.reindex(cyc.index).to_numpy() if set(res.amplitude.index.names) == set(cyc.index.names) else None
+            if got is None or not close(got, want):
+                chk.violation('per-element sensitivities: an element does not get the amplitudes of its own Haigh diagram', {'R_goal': GOAL[rg], 'elements': {7: DIAG['g0'], 3: DIAG['g3']}},
+                              want[:4], None if got is None else got[:4].tolist(), part='layout')
+            else:
+                chk.nontrivial(('per_element', rg))
+            if not (cyc.equals(c0) and sens.equals(s0)):
+                chk.violation('mean stress transformation modified its operands', {'R_goal': GOAL[rg]}, part='layout')
+        except Exception as ex:
+            chk.violation('per-element mean stress transformation raised %r' % ex, {'R_goal': GOAL[rg]}, part='layout')
+
+
 def check_matrix(chk, rng, quick):
     """Rainflow matrix interface: totals conserved; exact placement when ranges hit class borders (M = 0, so ranges are unchanged)."""
     import pylife.strength.meanstress  # noqa
@@ -233,6 +268,12 @@ def run(chk):
             last = kk
         if cur:
             chunks.append(cur)
+        by_group = {}
+        for b in blocks:
+            st = parse_state(b.strip())
+            if st['out'] != (0, 0) and st['dg'] in ('g0', 'g3'):
+                by_group.setdefault((st['dg'], st['rg']), []).append(st)
+        check_per_element(chk, by_group)
         tot = 0
         for n, nontriv, viol, known, samples in par.pmap(_replay, [(c, fs, chk.seed * 100 + i) for i, c in enumerate(chunks)], chunksize=1):
             tot += n
